@@ -13,7 +13,8 @@ CLAIMED = {
              'look-ups) x severities x the 8 settings of the three flag bits the rules read; the real '
              'considerPEL is then swept over the same space (plus flag words with the 13 other bits set, and in '
              'the thorough tier all 65536 flag words) and the real CLI over all 64 switch sets x group subsets '
-             'x -l/-a/-n and the look-ups; every recorded verdict is judged by TLC with the same RuleSet.',
+             'x -l/-a/-n/-j and the look-ups (--plid, --src, --src-exclude, and --bmc-id / --id for PELs of every '
+             'class incl. BMC id 0); every recorded verdict is judged by TLC with the same RuleSet.',
         design='DESIGN.md 4.7, 5 C07',
         note='Trusted: TLC, the TLA+ transcription of the rule text.  Look-ups combined with selection options '
              'are outside the statement.  For severities 0x01..0x0F either reading of "informational" is accepted '
@@ -67,7 +68,10 @@ CLAIMED['C06'] = dict(
          'string values <= 2 characters over the alphabet " \\ : { a space , and validates the judge\'s key-end scanner '
          'against the construction.  The real prettyPrint is then observed on the same lines, at the module seam while '
          'the real decoder and CLI print generated PELs (JSON / text user data full of quotes, colons, braces), and on '
-         'adversarial documents, both widths; TLC judges every line and demands the recorded round trip.',
+         'adversarial documents, both widths; TLC judges every line and demands the recorded round trip.  The files '
+         'that -j WRITES are judged too, over whatever already sits under the result\'s name (nothing, an earlier '
+         'result made with other options, a longer or a shorter file); JSON user data carries the characters that '
+         'str.splitlines() treats as line boundaries, raw or escaped.',
     design='DESIGN.md 4.8, 5 C06',
     note='Trusted: TLC; json.loads equality as the round-trip projection.  Alignment is permitted, never required.',
     technique='TLC model checking of PrettyPrint.tla (scanner vs alignment rule) + TLC-judged lines recorded from the real prettyPrint / CLI')
@@ -79,7 +83,11 @@ CLAIMED['C13'] = dict(
          'layout <= 3x3, the default layout and both drawer formats on 20-byte strings, and pins the three literal line '
          'formats.  The real hexdump / parse are run on every length 0..80 (+ a spread), boundary byte values, 400 '
          '(thorough: all 65536) layouts, the three formats with short last lines and comment / blank lines, and '
-         '`peltool -x`; TLC judges each result (line count, width, offsets, spec-parse and real-parse give back the bytes).',
+         '`peltool -x`; TLC judges each result (line count, width, offsets, spec-parse and real-parse give back the bytes).  '
+         'HexDump.tla also models the dump-FILE reader (formats tried in order, first one yielding a byte wins; the '
+         'reversed order is a deviation config that TLC refutes) and what a comment line is; generated dump files with '
+         'title / comment / blank lines before, between and after the data lines, and dumps beyond 64 KiB (the 4-digit '
+         'address column wraps), go through the real parse_dump_file.',
     design='DESIGN.md 4.11, 5 C13',
     note='Used as an executable reference under TLC (encode/decode fidelity is not a protocol).  The ASCII column and the '
          'spacing of non-default layouts are not fixed by the statement and are not compared.',
@@ -129,7 +137,10 @@ CLAIMED['C04'] = dict(
          'route space (290 routes); each is realised with fixture parser modules and payload families (JSON documents, '
          'text with control characters, binary of all length classes, maximum-size 65527 / 65523 byte payloads) and decoded '
          'by the real parsePEL; TLC judges Lossless (HexDump!Parse of the entry\'s Data = payload), ErrorNote, JsonSame, '
-         'TextLines, PluginOutput, BaseKeys.',
+         'TextLines, PluginOutput, BaseKeys.  Failing parsers fail in every way: 24 kinds of exception type and text '
+         '(braces, format fields, percent signs, newlines, non-ASCII, empty, 3000 characters, custom __str__), ImportError '
+         'from inside the call, and modules that fail WHILE BEING LOADED (RuntimeError, NameError, FileNotFoundError, '
+         'SyntaxError) - all must end as the section\'s error note plus a lossless dump.',
     design='DESIGN.md 4.6, 5 C04',
     note='Invalid built-in JSON / non-UTF-8 text are outside the statement.  The canonical JSON the generator predicts is '
          'compared by TLC as text.',
@@ -142,7 +153,9 @@ CLAIMED['C18'] = dict(
          'osrc/oe500/m2c00/ocallouts are exercised too.  An import_module recorder and sys.modules snapshots observe '
          'every consultation during real decodes; TLC judges ModuleName, Args, Contained (all other entries equal the '
          'well-behaved run), ErrorNote + Lossless, NothingImported / NothingLoaded with plugins off, SrcModuleName, '
-         'SrcArgs, DrawerRouting / DrawerDecoder / AlwaysObject for the I/O drawer plug-in.',
+         'SrcArgs, DrawerRouting / DrawerDecoder / AlwaysObject for the I/O drawer plug-in.  Parser modules that '
+         'fail while being loaded (at the user-data, SRC, BMC-wrapper and callout sites) and parsers raising every kind '
+         'of exception text are among the behaviours.',
     design='DESIGN.md 4.6, 5 C18',
     note='Fixture modules stand for arbitrary parsers.  Words beyond the valid word count may be zeros or as stored.  The '
          'stand-alone drawer decoders are the oracle for which decoder was routed to.',
@@ -177,7 +190,8 @@ CLAIMED['C09'] = dict(
          'every header / body truncation class, PCE-size and text-field corruptions, random bytes, empty files, nested '
          'directories with valid PELs; names sorting before / between / after) every directory mode is run with and '
          'without the junk it cannot decode (established by a stand-alone run); TLC judges ExitZero, OneJsonDocument, '
-         'OthersUnchanged (identical stdout), JsonFilesUnchanged, NoFileForJunk.',
+         'OthersUnchanged (identical stdout), JsonFilesUnchanged, NoFileForJunk.  Junk includes files whose decodable '
+         'front part holds sections whose parser module raises before the file ends early.',
     design='DESIGN.md 4.9, 5 C09',
     note='OS-level unreadable files are outside the statement.  For -j stdout is expected to stay empty.',
     technique='TLC model checking of Listing.tla + differential runs of the real CLI (directory vs directory plus junk) judged by TLC')
@@ -188,7 +202,9 @@ CLAIMED['C10'] = dict(
          'Selection.tla (model-checked) demands for look-ups without selection options.  Directories with colliding ids '
          '(ids below 0x10000000, shared digits, prefix-related decimal BMC ids, several PELs per id) are queried through '
          'the real CLI in every spelling; TLC judges PlidExact, BmcIdFound, IdFound, SrcExact, SrcExcludeExact, '
-         'NotFoundReport.',
+         'NotFoundReport.  Reference codes also use more of their 32 characters (blanks inside); for --src-exclude '
+         'the judge demands: a PEL whose code IS a line of the file is never listed, one whose code occurs nowhere '
+         'in the file always is (a code that is only part of a longer line is left open).',
     design='DESIGN.md 4.9, 5 C10',
     note='Queries have 8 hex digits after prefix stripping; reference codes are 8 characters; file names carry their entry id.',
     technique='TLC-computed match sets (PelDir/Selection operators) against real CLI look-up results on generated directories')
@@ -210,7 +226,9 @@ CLAIMED['C15'] = dict(
          'partial modulo 100000), up to five big-endian arguments, warning and dump rules and the loss-less fall-back; TLC '
          'checks the framing over data lengths {0,1,3,4,1024,1025} x malformed variants x declared sizes.  The real '
          'parse_trace_data is run on buffers with every stop reason, alignment, hash class, tag and argument count against '
-         'both shipped string files and synthetic ones; TLC recomputes header, every entry line, warnings and dumps.',
+         'both shipped string files and synthetic ones; TLC recomputes header, every entry line, warnings and dumps.  '
+         'A pool of hash values recurs in many string files of one process (other text / partial only / absent) and '
+         'scratch paths are reused with other content, so answers remembered across decodes show up.',
     design='DESIGN.md 4.11, 5 C15',
     note='Executable-reference use of the spec; 32-bit quantities are handled as byte sequences in TLA+.',
     technique='TLA+ transcription (TraceBuf.tla) with model-checked framing + TLC-judged output of the real decoder')
